@@ -338,7 +338,9 @@ func main() {
 		}
 		fmt.Fprintf(&b, "  (%s, %s)%s\n", leanStr(e.k), leanStr(e.v), sep)
 	}
-	b.WriteString("]\n\nend Mobius.Generated\n")
+	b.WriteString("]\n\n")
+	b.WriteString(handshakeFacts(hl))
+	b.WriteString("end Mobius.Generated\n")
 	writeIfChanged(filepath.Join(out, "Consts.lean"), b.String())
 
 	// Readers
